@@ -238,6 +238,36 @@ Section Zipper.
   Qed.
 End Zipper.
 
+(* ---- sizes (C17): what hangs off the root ------------------------------------------------------- *)
+Definition sizes (l : list tree) : nat := fold_right (fun k n => tree_size k + n) 0 l.
+Lemma tree_size_unfold : forall ty d f ks, tree_size (T ty d f ks) = S (sizes ks).
+Proof. reflexivity. Qed.
+Lemma sizes_app : forall a b, sizes (a ++ b) = sizes a + sizes b.
+Proof. induction a; intros; simpl; [reflexivity|]. rewrite IHa. lia. Qed.
+
+Lemma size_downT : forall fs f t,
+  tree_size (downT f fs (Some t)) = tree_size (downT f fs None) + tree_size t.
+Proof.
+  induction fs as [|g r IH]; intros f t.
+  - cbn [downT opt_list]. rewrite !tree_size_unfold, !sizes_app. simpl. lia.
+  - cbn [downT]. rewrite !tree_size_unfold, !sizes_app. cbn [sizes fold_right]. rewrite IH. lia.
+Qed.
+
+Lemma rev_nonempty : forall (f : frame) r, exists f0 fs, rev (f :: r) = f0 :: fs.
+Proof.
+  intros. destruct (rev (f :: r)) as [|a l] eqn:E; [|eauto].
+  apply (f_equal (@length frame)) in E. rewrite rev_length in E. discriminate.
+Qed.
+
+Lemma retained_add_kid : forall f r t s s',
+  retained (mkS (add_kid f t :: r) None s) = retained (mkS (f :: r) None s') + tree_size t.
+Proof.
+  intros. destruct (rev_nonempty f r) as (f0 & fs & Hrev).
+  unfold retained, root_tree. cbn [s_stack].
+  rewrite zip_add_kid, (zip_up_shape _ _ _ _ Hrev), (zip_up_shape _ _ _ _ Hrev).
+  apply size_downT.
+Qed.
+
 (* ---- spec / prune on trees --------------------------------------------------------------------- *)
 Section SpecLemmas.
   Variable pm : list name -> bool.
@@ -410,7 +440,11 @@ Section XmlProof.
         run (mkS (f :: r) None SNone) rel (xevents x ++ rest) =
         prepend L (run (mkS (add_kids f (grow (chain_of (f :: r)) x) :: r) None SNone)
                        (skipn (length L) rel) rest) /\
-        Inv pm (add_kids f (grow (chain_of (f :: r)) x) :: r).
+        Inv pm (add_kids f (grow (chain_of (f :: r)) x) :: r) /\
+        (* C17: a node that is itself on the path is gone afterwards, and what was reachable when
+           it was delivered is the tree as it was before plus the node *)
+        (pm (chain_of (f :: r) ++ [xname x]) = true ->
+         Forall (fun d => snd d = retained (mkS (f :: r) None SNone) + tree_size (xtree x)) L).
 
   Lemma run_kids : forall kids, Forall RunP kids ->
     forall g s rel rest, Inv pm (g :: s) ->
@@ -423,7 +457,7 @@ Section XmlProof.
     induction 1 as [|x l Hx _ IH]; intros g s rel rest HI.
     - exists []. simpl. rewrite add_kids_nil, prepend_nil. auto.
     - cbn [flat_map]. rewrite <- app_assoc.
-      destruct (Hx g s rel (flat_map xevents l ++ rest) HI) as (L1 & E1 & R1 & I1).
+      destruct (Hx g s rel (flat_map xevents l ++ rest) HI) as (L1 & E1 & R1 & I1 & _).
       destruct (IH _ s (skipn (length L1) rel) rest I1) as (L2 & E2 & R2 & I2).
       rewrite chain_of_add_kids in E2, R2, I2.
       exists (L1 ++ L2). split; [|split].
@@ -473,7 +507,7 @@ Section XmlProof.
         rewrite Hspec. clear Hspec.
         destruct (pred t) eqn:Hp.
         * exists [(t, retained (mkS (add_kid f t :: r) None (SOpen (length (g :: f :: r)))))].
-          split; [reflexivity|]. split.
+          split; [reflexivity|]. split; [|split].
           -- unfold set_stream, release, read_prologue, remove_closed. cbn [s_stream s_stack s_done].
              assert (E : (if hd false rel
                           then Some (mkS (drop_last_kid (add_kid f t) :: r) None SNone)
@@ -487,10 +521,12 @@ Section XmlProof.
                cbn [length]; rewrite skipn_1;
                destruct (run (mkS (f :: r) None SNone) (tl rel) rest); reflexivity.
           -- rewrite add_kids_nil. exact HI.
-        * exists []. split; [reflexivity|]. split.
+          -- intros _. constructor; [|constructor]. cbn [snd]. apply retained_add_kid.
+        * exists []. split; [reflexivity|]. split; [|split].
           -- unfold remove_closed. cbn [s_stack]. rewrite drop_last_add_kid, add_kids_nil, prepend_nil.
              reflexivity.
           -- rewrite add_kids_nil. exact HI.
+          -- intros _. constructor.
       + (* not on the path: descend *)
         assert (HI1 : Inv pm (g :: f :: r)).
         { apply inv_push; assumption. }
@@ -500,7 +536,7 @@ Section XmlProof.
         rewrite <- app_assoc.
         destruct (run_kids kids IH g (f :: r) rel ([XEnd] ++ rest) HI1) as (L & EL & RL & IL).
         rewrite Hc1 in EL, RL, IL.
-        exists L. split; [|split].
+        exists L. split; [|split; [|split]].
         * rewrite EL. unfold t. cbn [xtree]. rewrite spec_unfold, Hpm, spec_kids_app.
           rewrite spec_kids_nonelem by apply attrs_nonelem. rewrite spec_kids_xtree. reflexivity.
         * rewrite RL. f_equal. cbn [app xrun xstep]. unfold wrap_up. cbn [s_stack s_stream negb].
@@ -516,11 +552,13 @@ Section XmlProof.
           destruct (prune_hdr pm c' t) as [E1 E2]. rewrite E2.
           change (node_name t) with (xname (XE nm fs attrs kids)). fold c c'.
           rewrite prune_clean by exact Hpm. apply andb_false_r.
+        * intro Habs. discriminate Habs.
     - (* character data *)
-      exists []. split; [reflexivity|]. split.
+      exists []. split; [reflexivity|]. split; [|split].
       + rewrite prepend_nil. reflexivity.
       + change (add_kids f (grow (chain_of (f :: r)) (XT s))) with (add_kid f (text_node s)).
         apply inv_add_kid; [exact HI|]. reflexivity.
+      + intros _. constructor.
   Qed.
 
   (* ---- the whole document ------------------------------------------------------------------- *)
